@@ -104,4 +104,10 @@ theorem C19_churn_baseline (cfg : LifeCfg) (s : LifeSt) (cycles : List (Bool × 
 theorem C19_source_releases_deferred :
     (factHolds "deferClose" && factHolds "deferRemoveConn") = true := source_releases_deferred
 
+/-- **The source is the one the model was written from** (regenerated on every run): the connection loop (`serveConn`, `receive`, `dispatch`, `handleMessage`, `responseMessage`, `executeCommand`, `upperASCII`) of the current source
+have the fingerprints recorded in the model; a change to any of them means the theorems above are not shown for the code
+as it is now, until the model has been compared with it again -/
+theorem C19_source_conn_loop_is_the_modelled_one :
+    connLoopModelled.all (fun e => Generated.serverFingerprints.contains (e.1, e.2.1)) = true := source_conn_loop_is_the_modelled_one
+
 end GoRedis
